@@ -35,7 +35,9 @@ namespace pika::detail {
             if (key[key.size() - 1] == '!') key.erase(key.size() - 1);
 
             std::string value(trim_whitespace(s.substr(p + 1)));
-            config_.insert(map_type::value_type(key, value));
+            // a later definition of a key overrides an earlier one (as in the ini registry): entries
+            // are passed in argument order, the real command line comes after prepended options
+            config_[key] = value;
         }
     }
 }    // namespace pika::detail
